@@ -113,6 +113,12 @@ def gen_history(r, start, n_ops, gated=(), allow_missing_reads=True):
                 ks = [k for k in o.keys() if not k.startswith("__") and not isinstance(o[k], (dict, list))]
                 if ks and r.random() < 0.3:
                     patch[r.choice(ks)] = "__delete__"
+                if r.random() < 0.15:
+                    # a dict patch for a block the object does not have: update() creates a plain dict without __type__
+                    missing = [k for k, (c, m) in vocab.child_slots(typ).items() if m == "single" and k not in o]
+                    if missing:
+                        patch[r.choice(missing)] = {"status": "ON"}
+                        feats.add("update-creates-typeless-dict")
                 mappyfile.update(o, patch)
                 ops.append(["update", list(path), sorted(patch)])
                 feats.add("update")
@@ -148,9 +154,14 @@ def gen_history(r, start, n_ops, gated=(), allow_missing_reads=True):
                               and k not in vocab.object_list_keys()]
                     if absent:
                         k = r.choice(absent)
-                        _ = o[k]  # auto-creates an empty dict on a Mapfile dict
+                        created = o[k]  # auto-creates an empty dict on a Mapfile dict
                         ops.append(["read-missing", list(path), k])
                         feats.add("read-missing-scalar-or-block")
+                        if isinstance(created, dict) and r.random() < 0.5:
+                            # ... and a keyword is then set on the auto-created (typeless) dict, e.g. d["legend"]["status"] = "ON"
+                            created[r.choice(["status", "name", "template"])] = r.choice(["ON", "x", 5])
+                            ops.append(["set-on-auto-created", list(path), k])
+                            feats.add("read-missing-then-set")
                 elif y < 0.7:
                     lk = [k for k, (c, m) in vocab.child_slots(typ).items() if m == "list" and k not in o]
                     if lk:
